@@ -6,7 +6,8 @@ case     : `stack=tlcp|dtlcp ccap=<int> scap=<int> hist=<conn>,<conn>,...`
              conn = `<pre>/d<dst>/s<server>/<client suites>/<server suites>/<fault>[/a<policy 0..5><n|c|d>]`
                     (policy = the server's Config.ClientAuth; n|c|d = the client has no certificate /
                      certificate C / certificate D; absent = `a0n`)
-             pre  = `-` | act{`+`act},  act = `j<k>` | `fg` | `fn` | `st<d>` | `sl`
+             pre  = `-` | act{`+`act},  act = `j<k>` | `fg`[n] | `fn`[n] | `st<d>` | `sl`
+                    (n = 1..32: length in bytes of the forged identifier, absent = 32)
              suites = hex ids joined by `.`;  fault = `ok` | `sf` | `cf`
 observed : `c<i>=<c ok|fail>/<s ok|fail>/<cResumed 0|1|->/<sResumed>/<offered id>/<returned id>/<id len>/<suite>/<peer>/<master>/<fresh>/<control>/<server view>` …
            server view = `-` (server failed) | `<id>[v]:<vpc>:<vc>`: id = client certificate in the server's
@@ -64,9 +65,19 @@ def hexNat (s : String) : Option Nat :=
 def parseSuites (s : String) : Option (List Nat) :=
   if s == "-" then some [] else (s.splitOn ".").mapM hexNat
 
+/-- the length suffix of a forged identifier: absent (= 32) or 1..32 -/
+def forgedLenOk (s : String) : Bool :=
+  s == "" || (match s.toNat? with
+    | some n => 1 ≤ n && n ≤ 32
+    | none => false)
+
+/-- `fg<n>` / `fn<n>`: a forged identifier of n bytes. The model's identifiers are opaque naturals
+(the server neither reads nor constrains the offered identifier except as a cache key — pinned by
+`C10_facts_opaque_id`), so the length is not an input of the prediction: every legal length is the
+same `Pre.forge`. -/
 def parsePre (s : String) : Option Pre :=
-  if s == "fg" then some (.forge true)
-  else if s == "fn" then some (.forge false)
+  if s.startsWith "fg" && forgedLenOk (String.ofList (s.toList.drop 2)) then some (.forge true)
+  else if s.startsWith "fn" && forgedLenOk (String.ofList (s.toList.drop 2)) then some (.forge false)
   else if s == "sl" then some .dropServer
   else if s.startsWith "st" then (String.ofList (s.toList.drop 2)).toNat?.map Pre.stale
   else if s.startsWith "j" then (String.ofList (s.toList.drop 1)).toNat?.map Pre.junk
